@@ -323,6 +323,8 @@ def run(ctx):
             except Exception:
                 normal = None
             if normal is not None:
+                from checks.c01_xml import restate_dtypes
+                restate_dtypes(normal, gen.normal_form(spec), rec)   # the dtype the specification names, not what the build made of it
                 run_foreign({"spec": enc(foreign_safe(normal)), "i": i}, ctx)
         if ctx.time_left() < 0:
             rec.extra["stopped_early_at_doc"] = i
